@@ -18,7 +18,8 @@ RULE = ("BFS to depth d over events {write one of 3 values to a mapped variable 
         "request on 3 maps, disable a map, change a consumer map's COB-ID (+subscribe), subscribe again, foreign frames on a "
         "mapped and an unmapped id, add_callback}; after each step bus frames, every consumer map's data / timestamp / "
         "callback count and every variable value are compared with the reference. Waits: waiter x receiver (0..2 frames) "
-        "with <= P preemptions. states de-duplicated on (map data, configuration, subscriptions, callbacks); non-trivial = "
+        "with <= P preemptions; a reader of two bit-field variables x receiver (1..2 frames) at line + after-call granularity. "
+        "states de-duplicated on (map data, configuration, subscriptions, callbacks); non-trivial = "
         "states reached by >= 2 events, schedules with a preemption")
 ASSUMPTIONS = [
     "a consumer map counts as subscribed to an id once subscribe() was called while it had that COB-ID; frames only update it while its current COB-ID equals the frame id",
@@ -276,6 +277,12 @@ def cases(tier, seed):
     for frames in ([], [1], [1, 2], [0], [0, 1], [1, 0]):
         for pre in (False, True):
             out.append({"part": "wait", "frames": frames, "pre_received": pre, "P": P})
+    for nframes in (1, 2):
+        for reads in (1, 2):
+            for warm in (False, True):
+                for first in ("reader", "receiver"):
+                    out.append({"part": "read-race", "frames": nframes, "reads": reads, "warm": warm, "first": first,
+                                "P": 1 if tier == "quick" else 2})
     from checks import c05
     for a in range(len(c05.FULL)):
         out.append({"part": "layouts", "first": a})
@@ -390,7 +397,107 @@ def run_layouts(case, st):
     st.sample({"layouts first field": list(first), "layouts": len(layouts)}, cap=2)
 
 
+def run_read_race(case, st):
+    """The application thread reads bit-field variables of a consumer map while the receive thread delivers frames
+    (line-level + after-call scheduling points inside canopen): each read returns the field of a frame that was current
+    at some moment of the read, and once both threads are done a read returns the last frame's field."""
+    import os
+    import canopen
+    root = os.path.dirname(os.path.abspath(canopen.__file__))
+    FR = [0x00, 0xA5, 0x3C]          # initial content, then the delivered frames (low nibble 0, 5, C; high nibble 0, A->-6, 3)
+
+    def fields(b):
+        hi = b >> 4
+        return (b & 0xF, hi - 16 if hi & 8 else hi)
+
+    def harness(s):
+        node = canopen.RemoteNode(5, od())
+        m = node.tpdo[1]
+        m.cob_id = 0x185
+        m.clear()
+        lo = m.add_variable(0x2000, 0, 4)
+        hi = m.add_variable(0x2004, 0, 4)
+        m.on_message(0x185, bytearray([FR[0]]), 5.0)
+        if case["warm"]:
+            lo.raw, hi.raw                               # history: the variables have been read before
+
+        def reader():
+            got = []
+            for k in range(case["reads"]):
+                s.note(("read-start", k))
+                v = (lo.raw, hi.raw)
+                s.note(("read-end", k))
+                got.append(v)
+            return got
+
+        def receiver():
+            for i in range(1, case["frames"] + 1):
+                s.note(("deliver-start", i))
+                m.on_message(0x185, bytearray([FR[i]]), 10.0 + i)
+                s.note(("deliver-end", i))
+        if case["first"] == "reader":
+            rt = s.spawn(reader, "reader")
+            s.spawn(receiver, "receiver")
+        else:
+            s.spawn(receiver, "receiver")
+            rt = s.spawn(reader, "reader")
+
+        def result():
+            final = None
+            if not s.deadlock and rt.exc is None:
+                final = (lo.raw, hi.raw)
+            return (rt.res if rt.exc is None else ("EXC", repr(rt.exc)[:80]), final, tuple(s.events), s.deadlock)
+        return result
+
+    def on_exec(s, out):
+        got, final, events, deadlock = out
+        st.evaluations += 1
+        st.traces += 1
+        st.transitions += len(s.trace)
+        if s.pre:
+            st.nontrivial_n += 1
+        rc = dict(case, schedule=[t[1] for t in s.trace])
+        if deadlock:
+            st.violation("C15:read-race:deadlock", rc, "no deadlock", deadlock)
+            return
+        if got and got[0] == "EXC":
+            st.violation("C15:read-race:exception", rc, "a value", got[1])
+            return
+        last = fields(FR[case["frames"]])
+        if final != last:
+            st.violation("C15:read-race:stale-after-quiescence", rc, f"the last frame's fields {last}", f"{final} (reads {got})")
+            return
+        for k, v in enumerate(got):
+            a = events.index(("read-start", k))
+            b = events.index(("read-end", k))
+            done_before = [e[1] for e in events[:a] if e[0] == "deliver-end"]
+            started_before_end = [e[1] for e in events[:b] if e[0] == "deliver-start"]
+            lo_i = max(done_before, default=0)
+            hi_i = max(started_before_end, default=0)
+            # each field comes from one of the frames current during the read (the two fields are read one after the other)
+            ok = all(any(v[f] == fields(FR[i])[f] for i in range(lo_i, hi_i + 1)) for f in (0, 1))
+            if not ok:
+                st.violation("C15:read-race:value-of-no-current-frame", rc,
+                             f"fields of frames {list(range(lo_i, hi_i + 1))} of {[fields(x) for x in FR]}", f"read {k} = {v}")
+                return
+        st.outcome(f"read-race reads={got}")
+
+    if "schedule" in case:
+        simenv.new_world()
+        s = vsched.Scheduler(case["schedule"], line_root=root, horizon=20000, after_calls=True)
+        result = harness(s)
+        s.run()
+        on_exec(s, result())
+        return
+    stats = vsched.explore_schedules(harness, case["P"], on_exec=on_exec, line_root=root, horizon=20000, after_calls=True)
+    st.states += stats["executions"]
+    st.count("read_race_schedules", stats["executions"])
+    st.sample({"read-race": case, "schedules": stats["executions"], "outcomes": len(stats["outcomes"])}, cap=8)
+
+
 def run_case(case, st):
+    if case["part"] == "read-race":
+        return run_read_race(case, st)
     if case["part"] == "layouts":
         return run_layouts(case, st)
     if case["part"] == "bfs":
@@ -485,7 +592,7 @@ def run_wait(case, st):
 
     if "schedule" in case:
         simenv.new_world()
-        s = vsched.Scheduler(case["schedule"])
+        s = vsched.replay_scheduler(case)
         result = harness(s)
         s.run()
         on_exec(s, result())
